@@ -10,10 +10,21 @@ Runs the definitions of `P3R.Model.Decomp` on the executable prime fields `PF p`
   erecon <fld> <D> <W> : <c_0 limbs … c_{D-1} limbs>  -> erecon <limbs>       ALU chain value
   coefrun <fld> <D> <W> <alu|npo|npoc> <a|b> <x limbs> : <c limbs (D*D)> -> coefrun run=… canon=…
   coef    …same…                              -> coef run=… accept=… canon=…
+General modulus `X^D = Σ r_k X^k` (any D; binomial of any degree, KoalaBear quintic trinomial) and
+multi-limb bits (`P3R.Model.DecompGen`, executable extension `EV`):
+  gerecon <fld> <D> <r_0 … r_{D-1}> : <c limbs (D*D)>            -> gerecon <limbs>
+  gcoefrun <fld> <D> <r…> <alu|npo|npoc> <a|b> <x limbs> : <c limbs (D*D)> -> gcoefrun run=… canon=…
+  gcoef    …same…                                                -> gcoef run=… accept=… canon=…
+  mhint <fld> <D> <n> : <x limbs>                                -> mhint <b_0 … b_{n-1}>   honest multi-limb hint
+  mrecon <fld> <D> <r…> : <slots, D limbs each>                  -> mrecon <limbs>          all-limb mul_add chain
+  mbitsrun <fld> <D> <r…> <n> <x limbs> : <n slots, D limbs each> -> mbitsrun run=… canon=…  (| mbitsrun err)
+  mbits    …same…                                                -> mbits run=… accept=… canon=…
 Anything else -> bad-op.
 -/
 import P3R.Model.Field
 import P3R.Model.Decomp
+import P3R.Model.DecompGen
+import P3R.Model.ExtPoly
 
 open P3R P3R.Decomp
 
@@ -72,7 +83,90 @@ def coefCmd (p : Nat) (full : Bool) (D W : Nat) (m : Mode) (bound : Bool) (xl cl
   if full then s!"coef run={run} accept={b01 acc} canon={b01 canon}"
   else s!"coefrun run={run} canon={b01 canon}"
 
-def step (line : String) : String :=
+def gcoefCmd (p : Nat) (full : Bool) (D : Nat) (rl : List Nat) (m : Mode) (bound : Bool)
+    (xl cl : List Nat) : String :=
+  let x := limbFn (xl.map (PF.ofNat (p := p)))
+  let csL := chunk D D (cl.map (PF.ofNat (p := p)))
+  let cs : Nat → Nat → PF p := fun i => limbFn (csL.getD i [])
+  let r : Nat → PF p := EV.redFn rl
+  let runOk := coefRunOkG r D m x cs
+  let acc := coefAcceptG r D m bound x cs
+  let canon := coeffsEq D cs (canonCoeffs x)
+  let run := if runOk then "ok" else "WitnessConflict"
+  if full then s!"gcoef run={run} accept={b01 acc} canon={b01 canon}"
+  else s!"gcoefrun run={run} canon={b01 canon}"
+
+def mbitsCmd (p : Nat) (full : Bool) (D : Nat) (rl : List Nat) (n : Nat) (xl sl : List Nat) : String :=
+  let w := bitLen p
+  let c := if full then "mbits" else "mbitsrun"
+  -- builder guard `n_bits > F::bits()`
+  if n > bitLen (p ^ D) then s!"{c} err" else
+  let x : EV p D rl := EV.ofLimbs xl
+  let bits : List (EV p D rl) := (chunk D n sl).map EV.ofLimbs
+  let e : Nat → EV p D rl := EV.basis
+  let runOk := bitsRunOkMulti p w D e x bits
+  let acc := bitsAcceptMulti p w D e x bits
+  let canon := bits == (canonBitsMulti w D n (fun i => (x.fn i).val) : List (EV p D rl))
+  let run := if runOk then "ok" else "WitnessConflict"
+  if full then s!"mbits run={run} accept={b01 acc} canon={b01 canon}"
+  else s!"mbitsrun run={run} canon={b01 canon}"
+
+def stepG (hd tl : List String) : String :=
+  match hd with
+  | "gerecon" :: f :: d :: rs =>
+    match fieldOf f, d.toNat?, nats rs, nats tl with
+    | some p, some D, some rl, some cl =>
+      if rl.length != D || cl.length != D * D then "bad-op" else
+      let csL := chunk D D (cl.map (PF.ofNat (p := p)))
+      let cs : Nat → Nat → PF p := fun i => limbFn (csL.getD i [])
+      let r := extRecomposeG (EV.redFn rl) D cs
+      s!"gerecon {natsStr ((List.range D).map fun j => (r j).val)}"
+    | _, _, _, _ => "bad-op"
+  | c :: f :: d :: rest =>
+    match fieldOf f, d.toNat? with
+    | some p, some D =>
+      if c == "gcoef" || c == "gcoefrun" then
+        match nats (rest.take D), rest.drop D, nats tl with
+        | some rl, m :: cons :: xs, some cl =>
+          match modeOf m, nats xs with
+          | some m, some xl =>
+            if rl.length != D || xl.length != D || cl.length != D * D || (cons != "a" && cons != "b") then "bad-op"
+            else gcoefCmd p (c == "gcoef") D rl m (cons == "b") xl cl
+          | _, _ => "bad-op"
+        | _, _, _ => "bad-op"
+      else if c == "mhint" then
+        match rest, nats tl with
+        | [n], some xl =>
+          match n.toNat? with
+          | some n =>
+            if xl.length != D then "bad-op" else
+            let x := limbFn (xl.map (PF.ofNat (p := p)))
+            let bs : List (PF p) := canonBitsMulti (bitLen p) D n (fun i => (x i).val)
+            s!"mhint {natsStr (bs.map (·.val))}"
+          | none => "bad-op"
+        | _, _ => "bad-op"
+      else if c == "mrecon" then
+        match nats rest, nats tl with
+        | some rl, some sl =>
+          if rl.length != D || sl.length % D != 0 then "bad-op" else
+          let bits : List (EV p D rl) := (chunk D (sl.length / D) sl).map EV.ofLimbs
+          let r : EV p D rl := reconMulti (bitLen p) D EV.basis bits
+          s!"mrecon {natsStr r.limbs}"
+        | _, _ => "bad-op"
+      else if c == "mbits" || c == "mbitsrun" then
+        match nats (rest.take D), nats (rest.drop D), nats tl with
+        | some rl, some (n :: xl), some sl =>
+          if rl.length != D || xl.length != D || sl.length != n * D then "bad-op"
+          else mbitsCmd p (c == "mbits") D rl n xl sl
+        | _, _, _ => "bad-op"
+      else "bad-op"
+    | _, _ => "bad-op"
+  | _ => "bad-op"
+
+def isG (c : String) : Bool :=
+  ["gerecon", "gcoef", "gcoefrun", "mhint", "mrecon", "mbits", "mbitsrun"].contains c
+
+def stepOld (line : String) : String :=
   let ws := (line.trimAscii.toString.splitOn " ").filter (· != "")
   let (hd, tl) := splitColon ws
   match hd with
@@ -116,6 +210,13 @@ def step (line : String) : String :=
       else coefCmd p (c == "coef") D W m (cons == "b") xl cl
     | _, _, _, _, _, _ => "bad-op"
   | _ => "bad-op"
+
+def step (line : String) : String :=
+  let ws := (line.trimAscii.toString.splitOn " ").filter (· != "")
+  let (hd, tl) := splitColon ws
+  match hd with
+  | c :: _ => if isG c then stepG hd tl else stepOld line
+  | [] => stepOld line
 
 partial def loop (h : IO.FS.Stream) : IO Unit := do
   let line ← h.getLine
